@@ -6,7 +6,7 @@ var sharedDecoderObligations = func(c *Check, rule string) {
 	if p == nil {
 		return
 	}
-	runAsm(c, p, []asmCase{{false, false}, {false, true}}, map[string]string{"result": rule, "offset": rule, "consumed": rule, "blockend": rule, "exit": rule})
+	runAsm(c, p, []asmCase{{false, false}, {false, true}}, map[string]string{"result": rule, "offset": rule, "consumed": rule, "blockend": rule, "exit": rule, "nowrap32": rule})
 	portableDecoderRules(c, rule)
 }
 
